@@ -550,3 +550,134 @@ pub fn depth_prober(self_addr: Address) -> Bytes {
 pub fn hash_bytes(b: &[u8]) -> B256 {
     keccak256(b)
 }
+
+// ---------------------------------------------------------------- EOF programs (OSAKA)
+
+const RJUMPI: u8 = 0xe1;
+const RETURNDATALOAD: u8 = 0xf7;
+const EXTCALL: u8 = 0xf8;
+const EXTDELEGATECALL: u8 = 0xf9;
+const EXTSTATICCALL: u8 = 0xfb;
+
+/// Wrap one code section into an EOF v1 container (no data, no sub-containers).
+/// `max_stack` is the exact maximal stack height of the section.
+pub fn eof_container(code: &[u8], max_stack: u16) -> Bytes {
+    let mut v = vec![0xef, 0x00, 0x01];
+    v.extend_from_slice(&[0x01, 0x00, 0x04]); // types: one entry
+    v.extend_from_slice(&[0x02, 0x00, 0x01]);
+    v.extend_from_slice(&(code.len() as u16).to_be_bytes());
+    v.extend_from_slice(&[0x04, 0x00, 0x00]); // data size 0
+    v.push(0x00);
+    v.extend_from_slice(&[0x00, 0x80]); // inputs 0, non-returning
+    v.extend_from_slice(&max_stack.to_be_bytes());
+    v.extend_from_slice(code);
+    Bytes::from(v)
+}
+
+/// A straight-line EOF program of `n` balanced snippets (each optionally guarded by a
+/// calldata byte through RJUMPI), ending in STOP. Returns the container.
+pub fn gen_eof_program(rng: &mut Rng, ctx: &GenCtx, n: usize) -> Bytes {
+    let mut a = Asm::new();
+    let mut max_stack: u16 = 1;
+    for i in 0..n {
+        let mut b = Asm::new();
+        let k = *rng.pick(&ctx.slots);
+        let addr = if ctx.addr_pool.is_empty() { Address::ZERO } else { *rng.pick(&ctx.addr_pool) };
+        let mut term = false;
+        let mut height: u16 = 2;
+        match rng.below(14) {
+            0 | 1 => {
+                b.push_u(rng.below(4)).push(k).op(SSTORE);
+            }
+            2 => {
+                b.push(k).op(SLOAD).op(POP);
+            }
+            3 => {
+                b.push_u(rng.below(3)).push(k).op(TSTORE);
+            }
+            4 => {
+                let t = rng.below(3) as u8;
+                for j in 0..t {
+                    b.push_u(j as u64 + 1);
+                }
+                b.push_u(small_len(rng)).push_u(small_mem_off(rng)).op(LOG0 + t);
+                height = t as u16 + 2;
+            }
+            5 => {
+                b.push(U256::from(rng.next_u64())).push_u(small_mem_off(rng)).op(MSTORE);
+            }
+            6 => {
+                b.push_addr(addr).op(BALANCE).op(POP);
+                height = 1;
+            }
+            7 | 8 | 9 if !ctx.callees.is_empty() => {
+                let target = *rng.pick(&ctx.callees);
+                let shift = 1 + rng.below(3);
+                b.op(CALLDATASIZE).push_u(shift).push_u(128).op(CALLDATACOPY);
+                b.push(call_value(rng, ctx)).op(CALLDATASIZE).push_u(128).push_addr(target).op(EXTCALL).op(POP);
+                height = 4;
+            }
+            10 if !ctx.callees.is_empty() => {
+                let target = *rng.pick(&ctx.callees);
+                b.op(CALLDATASIZE).push_u(1).push_u(128).op(CALLDATACOPY);
+                b.op(CALLDATASIZE).push_u(128).push_addr(target).op(EXTDELEGATECALL).op(POP);
+                height = 3;
+            }
+            11 if !ctx.callees.is_empty() => {
+                let target = *rng.pick(&ctx.callees);
+                b.op(CALLDATASIZE).push_u(1).push_u(128).op(CALLDATACOPY);
+                b.op(CALLDATASIZE).push_u(128).push_addr(target).op(EXTSTATICCALL).op(POP);
+                height = 3;
+            }
+            12 => {
+                b.push_u(rng.below(40)).op(RETURNDATALOAD).op(POP);
+                b.op(RETURNDATASIZE).op(POP);
+                height = 1;
+            }
+            _ => {
+                term = true;
+                match rng.below(3) {
+                    0 => {
+                        b.push_u(small_len(rng)).push_u(small_mem_off(rng)).op(RETURN);
+                    }
+                    1 => {
+                        b.push_u(small_len(rng)).push_u(small_mem_off(rng)).op(REVERT);
+                    }
+                    _ => {
+                        b.op(INVALID);
+                    }
+                }
+            }
+        }
+        // CALLDATACOPY needs three operands on the stack
+        max_stack = max_stack.max(height).max(3);
+        if term || rng.below(100) < ctx.guard_pct {
+            // if calldata[i] == 0 skip the body (relative jump over it)
+            a.op(PUSH1).raw(&[i as u8]).op(CALLDATALOAD).op(PUSH1).raw(&[0]).op(BYTE).op(ISZERO);
+            a.op(RJUMPI).raw(&(b.len() as u16).to_be_bytes());
+            max_stack = max_stack.max(2);
+        }
+        a.raw(&b.code);
+    }
+    a.op(STOP);
+    let _ = max_stack;
+    // the declared maximal stack height must be exact: measure it on the produced code
+    eof_container(&a.code, eof_max_stack(&a.code))
+}
+
+/// Exact maximal stack height of straight-line EOF code whose only jumps are forward
+/// RJUMPIs over stack-neutral bodies (what `gen_eof_program` emits).
+pub fn eof_max_stack(code: &[u8]) -> u16 {
+    let mut h: i32 = 0;
+    let mut max: i32 = 0;
+    let mut i = 0;
+    while i < code.len() {
+        let op = code[i];
+        let Some(info) = crate::itp::opcode::OPCODE_INFO_JUMPTABLE[op as usize] else { break };
+        h -= info.inputs() as i32;
+        h += info.outputs() as i32;
+        max = max.max(h);
+        i += 1 + info.immediate_size() as usize;
+    }
+    max.max(0) as u16
+}
